@@ -627,6 +627,13 @@ def punish (s : St) (a : Addr) (rewardee : Option Addr) : M St :=
     | .error e => .error e
     | .ok (s1, q1) => .ok (setSeq s1 q1)
 
+/-- the standalone governance `PunishSequencerProposal` (x/sequencer/proposal_handler.go
+    `HandlePunishSequencerProposal`, a legacy gov route: x/gov's `ExecLegacyContent` checks the authority,
+    then the handler calls `PunishSequencer`): the punishment of a fraud proposal WITHOUT any fork — the
+    punished sequencer keeps its status and its role (a punished proposer stays proposer with bond 0). -/
+def punishProposal (s : St) (authOk : Bool) (a : Addr) (rewardee : Option Addr) : M St :=
+  if !authOk then .error .unauthorized else punish s a rewardee
+
 /-- `MsgRollappFraudProposal` -/
 def fraud (s : St) (authOk : Bool) (ra h rev : Nat) (pun : Option Addr) (rewardee : Option Addr) : M St :=
   if !authOk then .error .unauthorized else
@@ -765,6 +772,7 @@ inductive Op
   | update (m : UpdMsg)
   | fraud (authOk : Bool) (ra h rev : Nat) (pun : Option Addr) (rewardee : Option Addr)
   | obsolete (authOk : Bool) (vs : List Nat)
+  | punish (authOk : Bool) (a : Addr) (rewardee : Option Addr)
   | begin_ (dt : Nat)
   | end_ (fails : List (Nat × Nat))
   deriving Repr, Inhabited
@@ -795,6 +803,7 @@ def apply (s : St) : Op → M St
   | .update m => updateState s m
   | .fraud au ra h rev p rw => fraud s au ra h rev p rw
   | .obsolete au vs => markObsolete s au vs
+  | .punish au a rw => punishProposal s au a rw
   | .begin_ dt => .ok (beginBlock s dt)
   | .end_ f => .ok (endBlock s f)
 
